@@ -602,6 +602,12 @@ def fold_predicates(ck: Checker, rule='C12.FOLD', real_iterator=True):
     maj = [bin(t).count('1') >= 3 for t in range(16)]
     third = [bool(t & 0b0010) for t in range(16)]
     funcs += [(4, 1, [rot]), (4, 1, [maj]), (4, 1, [third]), (4, 2, [maj, rot])]
+    # one function per Hamming-weight layer that is asymmetric in that layer only (1 on a single assignment of weight w): a loop
+    # over the layers that stops early, starts late or skips one is wrong on exactly one of them (seeded C12-13: layers up to n/2 only)
+    for n5, picks in ((4, (0b0001, 0b0110, 0b1110)), (5, (0b00001, 0b00110, 0b01110, 0b11110))):
+        for one in picks:
+            funcs.append((n5, 1, [[t == one for t in range(1 << n5)]]))
+    funcs.append((4, 3, [[t == one for t in range(16)] for one in (0b1000, 0b1001, 0b0111)]))
     n_q = 0
     for kind in ('TruthTable', 'PyFunction', 'Circuit'):
         probs = []
